@@ -68,7 +68,7 @@ def fmtDelivered (l : List (Nat × Target × Bool)) : String :=
 def parseTarget (s : String) : Option Target :=
   if s == "main" then some .main else s.toNat?.map .temp
 
-/-! ### whole-client ops: `cl reset` | `cl <sub|err|shut> <acct> <refuse> <failOpen> <beh,..|->` -/
+/-! ### whole-client ops: `cl reset` | `cl <sub|err|shut> <acct> <refuse> <failOpen> <failBatch> <beh,..|->` -/
 
 def parseBeh (s : String) : Option Beh :=
   if s == "ok" then some .ok else if s == "errBC" then some .errBC else if s == "shutBC" then some .shutBC
@@ -85,8 +85,8 @@ def fmtErrs (l : List ErrClass) : String :=
   if l.isEmpty then "-" else joinWith "," (l.map fun
     | .none_ => "nil" | .serverErrored => "ErrServerErrored" | .other => "other")
 
-def clStep (d : DrvSt) (op : Op) (refuse failOpen : Nat) (beh : List Beh) : DrvSt × String :=
-  let c0 := d.cl.script refuse beh failOpen
+def clStep (d : DrvSt) (op : Op) (refuse failOpen failBatch : Nat) (beh : List Beh) : DrvSt × String :=
+  let c0 := d.cl.script refuse beh failOpen failBatch
   let (c, ret) := c0.step variantOfSource id op
   let out :=
     if c.chaos then "chaos" else
@@ -126,12 +126,12 @@ def drvStep (d : DrvSt) (args : List String) : DrvSt × String :=
       (d, s!"ok={bit c.ok} waits={fmtInts c.waits} backoffs={fmtInts c.backoffs}")
     | _, _, _, _, _ => (d, "bad-op")
   | ["cl", "reset"] => ({ d with cl := {} }, "ok")
-  | ["cl", kind, a, k, fo, b] =>
+  | ["cl", kind, a, k, fo, fb, b] =>
     let op : Option Op := if kind == "sub" then a.toNat?.map .sub else if kind == "err" then some .errIdle
       else if kind == "shut" then some .shutIdle else none
-    match op, k.toNat?, fo.toNat?, parseList "," parseBeh b with
-    | some op, some k, some fo, some b => clStep d op k fo b
-    | _, _, _, _ => (d, "bad-op")
+    match op, k.toNat?, fo.toNat?, fb.toNat?, parseList "," parseBeh b with
+    | some op, some k, some fo, some fb, some b => clStep d op k fo fb b
+    | _, _, _, _, _ => (d, "bad-op")
   | ["sw", "reset"] => ({ d with sw := {}, waiter := none }, "ok")
   | ["sw", "send", e] =>
     match e.toNat? with
